@@ -79,8 +79,12 @@ static std::string write_file(const char* const name,
 }
 
 static bool same_bits(const std::vector<double>& a, const std::vector<double>& b) {
-  return a.size() == b.size() &&
-         (a.empty() || std::memcmp(a.data(), b.data(), a.size() * sizeof(double)) == 0);
+  if (a.size() != b.size()) return false;
+  for (std::size_t i = 0; i != a.size(); ++i) {
+    if (std::isnan(a[i]) && std::isnan(b[i])) continue;  // sign/payload of a NaN is not observable here
+    if (std::memcmp(&a[i], &b[i], sizeof(double)) != 0) return false;
+  }
+  return true;
 }
 
 static void force(tfel::check::Column& c, const std::vector<double>& v) {
